@@ -148,6 +148,17 @@ def gen_cases(tier, seed, n_quick, n_thorough, profile=None, tag='ml'):
         prof = profile or G.Profile(matlab_safe=True)
         g = G.Gen(r, prof)
         m = g.module()
+        if k % 3 == 0:
+            # overloads of one free function that are NOT adjacent in the file (another declaration between them),
+            # each with its own signature and defaults: they must still form one overload group / one .m file
+            used = {d[3] if d[0] == 'class' else d[2] for d in m if d and d[0] in ('class', 'fun', 'enum')}
+            a = ('fun', None, g.fresh(used, G.METHOD_IDS), g.ret(), g.args())
+            b = ('fun', None, g.fresh(used, G.METHOD_IDS), g.ret(), g.args())
+            c = ('fun', None, a[2], g.ret(), g.args())
+            m = list(m)
+            m.insert(r.randrange(len(m) + 1), a)
+            m += [b, c]
+            g.count('function_overload_not_adjacent')
         out.append(('gen:%d/%d' % (seed, k), G.text(G.tokens(m))))
         for a, b in g.stats.items():
             stats[a] = stats.get(a, 0) + b
